@@ -112,12 +112,19 @@ func trimStack(b []byte) string {
 	return strings.Join(lines, "\n")
 }
 
-func (p Prop[P]) replayPath() string {
-	dir := os.Getenv("VERIF_REPLAY_OUT")
+// violDir is where replays of violations found by this run are written: a directory of its own per driver invocation
+// (VERIF_VIOL_DIR), so that concurrent runs of the same check do not see each other's files.
+func violDir(id string) string {
+	dir := os.Getenv("VERIF_VIOL_DIR")
 	if dir == "" {
-		dir = filepath.Join(verifDir(), "replays", p.ID)
+		dir = filepath.Join(verifDir(), "replays", id)
 	}
 	_ = os.MkdirAll(dir, 0o755)
+	return dir
+}
+
+func (p Prop[P]) replayPath() string {
+	dir := violDir(p.ID)
 	seed := os.Getenv("VERIF_SEED")
 	if seed == "" {
 		seed = "0"
